@@ -204,6 +204,16 @@ pub fn eval(rng: &mut Rng, pats: &[(G, usize)], host: &G, heurs: &[Heur], o: &mu
             None => "(panic)".to_string(),
         };
         o.case(sexp::l(vec![sexp::a("pg-run"), dump.clone(), sexp::l(vec![host_s.clone()])]).to_string(), format!("({})", exp), built.n_states >= 3);
+        // a set of single-root patterns: the hypotheses aut_single_root / match_keys_in of Theorem
+        // c02_portgraph_run_complete_on_single_root_pattern_sets, on the dump
+        if !pats.is_empty() && present.iter().all(|x| *x) && pats.iter().all(|(p, r)| crate::pg::n_index_roots(p, *r) <= 1) {
+            let want = format!("(sr 1 mk ({}))", pats.iter().map(|_| "1").collect::<Vec<_>>().join(" "));
+            o.case(
+                sexp::l(vec![sexp::a("pg-srset"), dump.clone(), sexp::list(pats, |(p, r)| sexp::l(vec![p.to_s(), sexp::a(r)]))]).to_string(),
+                want,
+                built.n_states >= 3,
+            );
+        }
         // a single-root pattern compiled alone: every key of the automaton is a key of the pattern (the hypothesis
         // aut_keys_in of Theorem c02_portgraph_run_reports_embeddings_of_good_patterns)
         if pats.len() == 1 && present[0] && crate::pg::n_index_roots(&pats[0].0, pats[0].1) <= 1 {
